@@ -60,6 +60,8 @@ def draw_recording(rng, idx, fmt=None):
         s["order"] = ["Z", "N", "E"]
         s["east_first"] = rng.random() < 0.4
         s["north_rot"] = rng.choice([None, 0, 15, 90, 270, 359])
+        if rng.random() < 0.35:
+            s["saf_cols"] = rng.choice(PERMS)     # vertical not on CH0: the reader may refuse, but never mix channels
     if fmt == "minishark":
         s["order"] = ["Z", "N", "E"]
         s["gain"] = rng.choice([1, 2, 8, 32])
@@ -245,6 +247,9 @@ def build_disk(ctx, st, world, faults):
                 ctx.fault(f["kind"])
                 spec["_comp_fault"] = (f["kind"], f["comp"])
         files, exp = encode_with_comp_fault(spec)
+        if rec["fmt"] == "saf" and rec.get("saf_cols") and rec["saf_cols"][0] != "Z" and expect_class is None:
+            expect_class = "may_raise"
+            ctx.fault("saf_nonstandard_layout")
         files = [[n, b] for n, b in files]
         if rec.get("eol") == "crlf":
             files = [[n, b.replace(b"\n", b"\r\n")] for n, b in files]
@@ -565,6 +570,24 @@ def run_op(ctx, st, op, H):
             if fmt == "gcf":
                 return {"format": "GCF"}
             return None
+        # obspy trims each miniSEED file by its own record/sample rules; when that leaves the three
+        # components with different lengths the option is not used for that recording
+        trims = list(op["trims"])
+        import obspy
+        for i_, (e, t) in enumerate(zip(entries, trims)):
+            if t is not None and ks == "list" and e["spec"]["fmt"].startswith("mseed"):
+                try:
+                    with warnings.catch_warnings():
+                        warnings.simplefilter("ignore")
+                        lens = {len(tr.data) for p in e["paths"]
+                                for tr in obspy.read(io.BytesIO(st.fs.read_bytes(p)), **kw_for(e, t))}
+                except Exception:                            # noqa
+                    lens = {0, 1}
+                if len(lens) != 1:
+                    trims[i_] = None
+                    ctx.probe("reader_option_dropped_unequal_trim")
+        op = dict(op)
+        op["trims"] = trims
         if ks == "none":
             kwargs = None
         elif ks == "dict":
